@@ -106,10 +106,19 @@ func init() {
 				n = uni(t, "nrules_big", 20, 40)
 			}
 			kinds := []string{"val", "val", "bare", "nested", "none", "failbefore", "failinret", "flag", "flag", "valtag"}
+			haveTagSetter := false
 			for i := 0; i < n; i++ {
 				k := kinds[uni(t, fmt.Sprintf("kind%d", i), 0, len(kinds)-1)]
 				if big && (k == "failbefore" || k == "failinret" || k == "valtag") {
 					k = "val"
+				}
+				if k == "valtag" {
+					// at most one rule writes the (user-owned) stop tag: two setters running
+					// concurrently would be a conflicting access on user data, not on gengine's state
+					if haveTagSetter {
+						k = "val"
+					}
+					haveTagSetter = true
 				}
 				c.Rules = append(c.Rules, C11Rule{Name: fmt.Sprintf("r%d", i), Sal: int64(uni(t, fmt.Sprintf("sal%d", i), -2, 4)), Kind: k, Lit: c11Lits[uni(t, fmt.Sprintf("lit%d", i), 0, len(c11Lits)-1)]})
 			}
